@@ -10,7 +10,7 @@ Model commands:
   rw2_groups G C O                                             → none | ok cg og off:start:end,…
   rw2_mean <shape csv> <reduce csv>                            → none | ok <ifm shape> <inter shape> h w n hpc off:kh:rh:rw,…
   rw2_meanscale <siBits> <soBits> n                            → ok mult shiftVela | err:…
-  rw2_slice <shape> <begin> <end> bm em sm nm                  → ok <offset_begin> <offset_end> <valid>
+  rw2_slice <raw|clamp> <shape> <begin> <end> bm em sm nm      → ok <offset_begin> <offset_end> <valid>
   rw2_resize <bilinear> <align> H W n                          → none | ok steps <h:w,…|-> <last>
   rw2_prelu <const> qmin qmax zp <scaleBits> <scalingEqual>    → ok relu | lrelu a | mulmax idm | minmulreluadd
   rw2_padconcat <shape> <b:a,…>                                → keep | split <L|F> b a | concat <L|F> <sizes> idx
@@ -176,10 +176,10 @@ def handle (toks : List String) : Option String :=
          bad.getD "ok"
        | _, _ => "err:scale")
     | _, _ => "err:parse"
-  | ["rw2_slice", shp, b, e, bm, em, sm, nm] =>
+  | ["rw2_slice", variant, shp, b, e, bm, em, sm, nm] =>
     some <| match csvNats shp, csvInts b, csvInts e, parseNats [bm, em, sm, nm] with
     | some shp, some b, some e, some [bm, em, sm, nm] =>
-      let (ob, oe, v) := sliceRanges shp b e bm em sm nm
+      let (ob, oe, v) := sliceRanges (variant == "clamp") shp b e bm em sm nm
       s!"ok {showInts ob} {showInts oe} {boolStr v}"
     | _, _, _, _ => "err:parse"
   | ["rwsem2_slice", shp, b, e, bm, em, sm, nm, rb, re] =>
